@@ -89,7 +89,7 @@ M('D2', 'src/xdoctest/directive.py',
         pass""", ['C04'], 'inline overlay not cleared on update')
 M('K2', 'src/xdoctest/checker.py', 'TRAILING_WS = re.compile(r"[ \\t]*$", re.UNICODE | re.MULTILINE)',
   'TRAILING_WS = re.compile(r"[ ]*$", re.UNICODE | re.MULTILINE)', ['C05'], 'trailing-blank regex loses tabs')
-M('K3', 'src/xdoctest/checker.py', '''unicode_literal_re = re.compile(r"(\\W|^)[uU]([rR]?[\\'\\"])", re.UNICODE)''',
+M('K3', 'src/xdoctest/checker.py', '''unicode_literal_re = re.compile(r"([^\\w\\'\\"]|^)[uU]([rR]?[\\'\\"])", re.UNICODE)''',
   '''unicode_literal_re = re.compile(r"()[uU]([rR]?[\\'\\"])", re.UNICODE)''', ['C05'],
   'prefix stripping without its word-boundary guard')
 M('K5', 'src/xdoctest/checker.py', "        want = ' '.join(want.split())", "        want = want", ['C05'],
@@ -115,14 +115,13 @@ M('M7', 'src/xdoctest/static_analysis.py',
             self._current_classname = callname
             docstr, doclineno, doclineno_end = self._get_docstring(node)""", ['C07', 'C16'], 'nested classes visited')
 M('S4', 'src/xdoctest/static_analysis.py',
-  """                        node.test.comparators[0].value == '__main__',
-                    ]):
-                        # Ignore main block
-                        return""",
-  """                        node.test.comparators[0].value == '__main__',
-                    ]):
-                        # Ignore main block
-                        pass""", ['C07'], 'main guard no longer ignored')
+  """            for child in node.orelse:
+                self.visit(child)
+            return
+        self.generic_visit(node)  # nocover""",
+  """            for child in node.orelse:
+                self.visit(child)
+        self.generic_visit(node)  # nocover""", ['C07'], 'main guard no longer ignored')
 M('S5', 'src/xdoctest/static_analysis.py',
   """                    if decor.attr == 'setter':
                         # callname = callname + '.fset'
@@ -174,8 +173,8 @@ M('I1', 'src/xdoctest/utils/util_import.py', """        subdir = os.path.normpat
                 return False
             subdir = dirname(subdir)
         return True""", """        return True""", ['C17'], '__init__ chain check skipped')
-M('F0', 'src/xdoctest/doctest_part.py', "            for line in want_text.splitlines():",
-  "            for line in want_text.splitlines()[:-1] or want_text.splitlines():", ['C18'],
+M('F0', 'src/xdoctest/doctest_part.py', "            for line in utils.util_str.split_lf_lines(want_text):",
+  "            for line in utils.util_str.split_lf_lines(want_text)[:-1] or utils.util_str.split_lf_lines(want_text):", ['C18'],
   'format_part drops the last want line of multi-line wants')
 M('N1', 'src/xdoctest/doctest_part.py', "            start = startline + self.line_offset\n",
   "            start = startline + self.line_offset + (1 if self.line_offset else 0)\n", ['C18'],
@@ -393,7 +392,7 @@ M('I2', 'src/xdoctest/utils/util_import.py', """        # Check for directory-ba
                     return modpath""", ['C17'], 'a module file wins over a package of the same name')
 
 
-M('DU1', 'src/xdoctest/runner.py', "                    if ' import *' in line:", "                    if ' import ' in line:", ['C19'],
+M('DU1', 'src/xdoctest/runner.py', """                    if re.match(r'\\s*from\\s+[\\w.]+\\s+import\\s+\\*', line):""", """                    if re.match(r'\\s*from\\s+[\\w.]+\\s+import\\s', line) or re.match(r'\\s*import\\s', line):""", ['C19'],
   'dump drops every import line, not only star-imports')
 M('DU2', 'src/xdoctest/runner.py', """            if part.want:
                 want_text = '# doctest want:\\n'""", """            if part.want and len(part.want_lines) < 2:
